@@ -413,17 +413,18 @@ func runC01(c *Ctx, w *World, r *Report) {
 					if fa.VN(stripConv(side[0])) != wordVN {
 						continue
 					}
-					tab, tidx, ok := asElemLoad(side[1])
+					ms, ok := fa.MaskOf(side[1])
 					if !ok {
 						continue
 					}
-					if !isGlobal(tab, "bitmap", "Mask") {
-						bad = fmt.Sprintf("the counted word is masked with table %s, not bitmap.Mask (low j bits)", containerRole(tab))
+					if ms.Kind != "low" {
+						bad = fmt.Sprintf("the counted word is masked with a %s-bits mask (%s), not with the low j bits (bitmap.Mask[j] or (1<<j)-1)", ms.Kind, ms.Via)
 						continue
 					}
-					tx, tj, ok := asLowMask(tidx)
-					if !ok || tj != 6 || stripConv(tx) != iParam {
-						bad = "the mask index is not i&63"
+					jv := fa.AtomValueOfLin(ms.N)
+					tx, tj, ok := asLowMask(jv)
+					if jv == nil || !ok || tj != 6 || stripConv(tx) != iParam {
+						bad = "the mask width is not i&63"
 						continue
 					}
 					if coef != 1 {
